@@ -157,8 +157,8 @@ def _hll_chain(cfg, B, model, mname, prim, rhs, f, dt, dx, n):
         alphas.append(al)
         betas.append(be)
         Ff = rhs.flux[0][fc]
-        B.ob('chain-A:mass-flux=mL*alpha-mR*beta[%d]' % fc, 'eq', Ff, mL_ * al - mR_ * be, method='sweep')
-        kwb = dict(meta={'sqrt_level': 0}, assume=extra, timeout_ms=min(cfg.get('timeout_ms', 20000), 20000) if mname != 'shallowwater' else None)
+        B.ob('chain-A:mass-flux=mL*alpha-mR*beta[%d]' % fc, 'eq', Ff, mL_ * al - mR_ * be, method='sweep', meta={'lemma': True})
+        kwb = dict(meta={'sqrt_level': 0, 'lemma': True}, assume=extra, timeout_ms=min(cfg.get('timeout_ms', 20000), 20000) if mname != 'shallowwater' else None)
         B.ob('chain-B:alpha>=0[%d]' % fc, 'le', B.const(0), al, **kwb)
         B.ob('chain-B:beta>=0[%d]' % fc, 'le', B.const(0), be, **kwb)
         B.ob('chain-B:dt*alpha<dx/2[%d]' % fc, 'lt', dt * al, dx[0] / 2, **kwb)
@@ -177,4 +177,4 @@ def _hll_chain(cfg, B, model, mname, prim, rhs, f, dt, dx, n):
     for i in range(n):
         fp, fm = i + 1, i          # faces right / left of cell i
         new = m[i] - lam * ((mLs[fp] * av[fp] - mRs[fp] * bv[fp]) - (mLs[fm] * av[fm] - mRs[fm] * bv[fm]))
-        B.ob('chain-C:mass>0-from-A-and-B[%d]' % i, 'lt', B.const(0), new, assume=facts, replayable=False)
+        B.ob('chain-C:mass>0-from-A-and-B[%d]' % i, 'lt', B.const(0), new, assume=facts, replayable=False, meta={'lemma': True})
